@@ -236,7 +236,7 @@ def run(ctx):
     labels = {}
     for c in xc.calls("orc_x86_emit_cpuinsn_label"):
         labels.setdefault(unparse(c.args()[2]), []).append(c)
-    if len(branches) < 5 or len(labels) < 5 or len(events) < 4:
+    if len(branches) < 5 or len(labels) < 5 or len(events) < 2:      # a missing half of a pair is D4's finding, not an anchor failure
         raise AnalysisBroken("orc_x86_compile: %d branches, %d labels, %d paired events found" % (len(branches), len(labels), len(events)))
     for j, lab in branches:
         tg = labels.get(lab)
